@@ -8,7 +8,7 @@
 #       rp.S.N[.deny|.L<n>] rtmp publish (L<n>: n bytes of URL parameters)      rs.S.N[.deny]  rtmp play       ap.S.N[.deny] rtsp ANNOUNCE
 #       ds.S.N[.deny]  rtsp DESCRIBE     pl.N           rtsp PLAY       fs.S.N[.deny] http-flv   ts.S.N[.deny] http-ts
 #       cp.S.N         customize pub     pp.S.N         start_rtp_pub   gone.N        connection ends / DelCustomizePubSession
-#       kick.S.<name>  kick_session      spull.S.R.A    start_relay_pull (retry R, auto-stop A ms; nK = -K)
+#       kick.S.<name>  kick_session      spull.S.R.A[.rtsp] start_relay_pull (retry R, auto-stop A ms; nK = -K; .rtsp: rtsp:// url)
 #       xpull.S        stop_relay_pull   psucc.S.I / pfail.S.I / pdone.S.I   outcome of attempt I of stream S (0 = latest)
 #       pushok.S.T / pushfail.S.T / pushdone.S.T   outcome at push target T
 #       tick.C   adv.MS   dispose   media.N
@@ -27,24 +27,30 @@ ASSUMPTIONS = [
     "events are serialised by the harness: one callback / API call / tick / connection end at a time; the Del that lal's own goroutine reports "
     "for a session lal disposed (relay pull, PS publisher, relay push) is awaited before the next event (interleavings inside one callback are C20's)",
     "tick counts that are multiples of LogicCheckSessionAliveIntervalSec (120) are not generated (idle-session reaping is C16's)",
-    "RTSP relay pull is modelled but not exercised against the implementation (the stub origin speaks RTMP only); HLS subscribers are not modelled",
+    "HLS subscribers are not modelled; the stub origin answers rtsp:// pulls over interleaved TCP only (RtspMode 0)",
     "no subscriber arrives after ServerManager.Dispose (the implementation panics on its nil subscriber maps)",
     "StartRtpPub's Listen succeeds (port 0); http-api handler defaults are outside the model, the Ctrl* methods are called directly",
 ]
 FULL_OUTPUT = True
 TIMEOUT = 900
 
-INPUT_KINDS = ["rp", "ap", "cp", "pp", "pull", "held"]
+# rp/ap/cp/pp: rtmp, rtsp, customize, ps publisher; pull/rpull: attached rtmp / rtsp relay pull; held/rheld: the same still connecting
+INPUT_KINDS = ["rp", "ap", "cp", "pp", "pull", "rpull", "held", "rheld"]
+PULL_KINDS = ("pull", "rpull", "held", "rheld")
+
+
+def spull(kind, s, retry="0"):
+    return "spull.%d.%s.n1%s" % (s, retry, ".rtsp" if kind in ("rpull", "rheld") else "")
 
 
 def arrive(kind, s, n):
     """ops that bring input `kind` (named c<n> or the latest attempt of s) to stream s"""
     if kind in ("rp", "ap", "cp", "pp"):
         return ["%s.%d.%d" % (kind, s, n)]
-    if kind == "pull":
-        return ["spull.%d.0.n1" % s, "psucc.%d.0" % s]
-    if kind == "held":
-        return ["spull.%d.0.n1" % s]
+    if kind in ("pull", "rpull"):
+        return [spull(kind, s), "psucc.%d.0" % s]
+    if kind in ("held", "rheld"):
+        return [spull(kind, s)]
     raise ValueError(kind)
 
 
@@ -55,9 +61,9 @@ def depart(kind, s, n, how):
         return ["gone.%d" % n] if how != "kickonly" else ["kick.%d.c%d" % (s, n)]
     if kind == "pp":
         return ["kick.%d.c%d" % (s, n)]
-    if kind == "pull":
+    if kind in ("pull", "rpull"):
         return {"gone": ["pdone.%d.0" % s], "kick": ["kick.%d.p%d_1" % (s, s)], "kickonly": ["xpull.%d" % s]}[how]
-    if kind == "held":
+    if kind in ("held", "rheld"):
         return {"gone": ["pfail.%d.0" % s], "kick": ["psucc.%d.0" % s, "pdone.%d.0" % s], "kickonly": ["xpull.%d" % s, "psucc.%d.0" % s]}[how]
     raise ValueError(kind)
 
@@ -75,9 +81,9 @@ def gen_pairs():
     for a in INPUT_KINDS:
         for b in INPUT_KINDS:
             for how in ("gone", "kick", "kickonly"):
-                if b in ("pull", "held") and a in ("pull", "held"):
-                    # a second start_relay_pull while one is attached / in flight
-                    ops = ["fs.1.90"] + arrive(a, 1, 1) + ["spull.1.0.n1"] + ["psucc.1.0", "tick.1"] + depart(a, 1, 1, how) + ["tick.2", "tick.3"]
+                if b in PULL_KINDS and a in PULL_KINDS:
+                    # a second start_relay_pull (of b's protocol) while one is attached / in flight
+                    ops = ["fs.1.90"] + arrive(a, 1, 1) + [spull(b, 1)] + ["psucc.1.0", "tick.1"] + depart(a, 1, 1, how) + ["tick.2", "tick.3"]
                     yield Case(line(ops), cls="pair-%s-%s" % (a, b))
                     break
                 ops = ["fs.1.90"] + arrive(a, 1, 1) + media(a, 1) + arrive(b, 1, 2) + media(a, 1) + media(b, 2)
@@ -94,18 +100,21 @@ def gen_foreign():
         ["rs.1.2", "gone.2"], ["rs.1.2", "kick.1.c2", "gone.2"], ["fs.1.2", "gone.2"], ["fs.1.2", "kick.1.c2", "gone.2"],
         ["ts.1.2", "kick.1.c2", "gone.2"], ["ds.1.2", "pl.2", "kick.1.c2", "gone.2"], ["ds.1.2", "gone.2"],
         ["kick.1.c77"], ["kick.1.p1_9"], ["kick.2.c1"], ["rp.2.2", "kick.1.c2", "kick.2.c1", "gone.2"],
-        ["spull.1.0.n1"], ["xpull.1"], ["tick.1", "tick.2"], ["adv.100000", "tick.1"],
+        ["spull.1.0.n1"], ["spull.1.0.n1.rtsp"], ["xpull.1"], ["tick.1", "tick.2"], ["adv.100000", "tick.1"],
         ["gone.2"], ["gone.90"], ["pfail.1.1"], ["psucc.1.1"], ["pdone.1.1"], ["media.2"], ["pl.2"],
     ]
-    for a in ("rp", "ap", "cp", "pp", "pull"):
+    for a in ("rp", "ap", "cp", "pp", "pull", "rpull"):
         for f in foreign:
             ops = ["fs.1.90", "rs.1.91"] + arrive(a, 1, 1) + media(a, 1) + f + media(a, 1) + ["tick.3"] + depart(a, 1, 1, "gone") + ["tick.4", "gone.90", "gone.91", "tick.5"]
             yield Case(line(ops), cls="foreign-" + a)
-    # pull in flight when a publisher arrives, every outcome
-    for b in ("rp", "ap", "cp", "pp"):
-        for out in (["pfail.1.1"], ["psucc.1.1"], ["xpull.1", "psucc.1.1"], ["xpull.1", "pfail.1.1"], ["kick.1.p1_1", "psucc.1.1"]):
-            ops = ["fs.1.90", "spull.1.1.n1"] + arrive(b, 1, 1) + media(b, 1) + out + media(b, 1) + ["tick.1"] + depart(b, 1, 1, "gone") + ["tick.2", "psucc.1.0", "tick.3", "pdone.1.0", "tick.4"]
-            yield Case(line(ops), cls="overtaken-" + b)
+    # a pull of each protocol still connecting when a publisher of each kind arrives, every outcome
+    for proto in ("", ".rtsp"):
+        for b in ("rp", "ap", "cp", "pp"):
+            for out in (["pfail.1.1"], ["psucc.1.1"], ["psucc.1.1", "tick.6", "pdone.1.1"], ["xpull.1", "psucc.1.1"], ["xpull.1", "pfail.1.1"],
+                        ["kick.1.p1_1", "psucc.1.1"]):
+                ops = ["fs.1.90", "spull.1.1.n1" + proto] + arrive(b, 1, 1) + media(b, 1) + out + media(b, 1) + ["tick.1", "rp.1.7", "cp.1.8"] \
+                    + depart(b, 1, 1, "gone") + ["tick.2", "psucc.1.0", "tick.3", "pdone.1.0", "tick.4"]
+                yield Case(line(ops), cls="overtaken%s-%s" % (proto.replace(".", "-"), b))
 
 
 def gen_api_points():
@@ -119,8 +128,12 @@ def gen_api_points():
                 ops = [o for j, o in enumerate(ops) if not (j > i and o.split(".")[0] in ("fs", "rs", "ts", "ds"))]
             yield Case(line(ops), cls="api-" + x.split(".")[0])
     base2 = ["spull.1.0.n1", "fs.1.90", "psucc.1.1", "tick.1", "gone.90", "tick.2", "xpull.1", "tick.3"]
-    for x in ["kick.1.p1_1", "rp.1.1", "pp.1.2", "dispose", "xpull.1", "spull.1.1.1000", "pdone.1.1", "pfail.1.1"]:
+    for x in ["kick.1.p1_1", "rp.1.1", "pp.1.2", "dispose", "xpull.1", "spull.1.1.1000", "pdone.1.1", "pfail.1.1", "RTSP"]:
         for i in range(1, len(base2) + 1):
+            if x == "RTSP":  # the same base history with an rtsp:// pull, a publisher arriving at each point
+                ops = ["spull.1.0.n1.rtsp"] + base2[1:i] + ["ap.1.1"] + base2[i:]
+                yield Case(line(ops), cls="apipull-rtsp")
+                continue
             ops = base2[:i] + [x] + base2[i:]
             if x == "dispose":
                 ops = [o for j, o in enumerate(ops) if not (j > i and o.split(".")[0] in ("fs", "rs", "ts", "ds"))]
@@ -171,7 +184,7 @@ def rand_history(rng, n_ops, streams):
             i, k, st = rng.choice(live)
             ops.append("kick.%d.c%d" % (rng.choice([st, st, s]), i))
         elif r < 0.74:
-            ops.append("spull.%d.%s.%s" % (s, rng.choice(["0", "1", "n1"]), rng.choice(["n1", "n1", "0", "5000"])))
+            ops.append("spull.%d.%s.%s%s" % (s, rng.choice(["0", "1", "n1"]), rng.choice(["n1", "n1", "0", "5000"]), rng.choice(["", "", ".rtsp"])))
         elif r < 0.84:
             ops.append("%s.%d.0" % (rng.choice(["psucc", "pfail", "pdone", "psucc"]), s))
         elif r < 0.88:
